@@ -365,6 +365,25 @@ func (r *FnRun) allocObject(st *State, t types.Type, hint string) PtrVal {
 	st.top = ref
 	p := PtrVal{Kind: pkHeap, Ref: ref, Root: r.rootKey(t), Elem: t}
 	r.store(st, p, r.zeroVal(t), "alloc")
+	// mutexes inside a freshly allocated object are not held by anybody
+	var walk func(tt types.Type, path string)
+	walk = func(tt types.Type, path string) {
+		if isLockType(tt) {
+			q := p
+			q.Path = path
+			q.Elem = tt
+			if g := r.e.cs.Ghosts["held"]; g != nil {
+				r.assume(Eq(Select(r.ghostTerm(st, g), r.addrIdent(q)), IntLit(0)))
+			}
+			return
+		}
+		if stt, ok := under(tt).(*types.Struct); ok {
+			for i := 0; i < stt.NumFields(); i++ {
+				walk(stt.Field(i).Type(), joinPath(path, stt.Field(i).Name()))
+			}
+		}
+	}
+	walk(t, "")
 	return p
 }
 
